@@ -201,3 +201,76 @@ func VerifC25_TLB() {
 	}
 	verifrt.Cover("end")
 }
+
+// VerifC25_TLBEvict: two processes share a two-way TLB that is over-subscribed
+// by three pages; four requests in any order, one at a time. Every answer is
+// the page table's mapping of the requested (process, page) — also after
+// conflict evictions across processes.
+func VerifC25_TLBEvict() {
+	engine := timing.NewSerialEngine()
+	spec := DefaultSpec()
+	spec.NumSets = 1
+	spec.NumWays = 2
+	spec.MSHRSize = 2
+	spec.NumReqPerCycle = 1
+	spec.Latency = 1
+	comp := MakeBuilder().WithRegistrar(modeling.NewStandaloneRegistrar(engine)).WithSpec(spec).
+		WithResources(Resources{TranslationProviderMapper: &mem.SinglePortMapper{Port: "MMU.Top"}}).Build("TLB")
+	wire := &vpWire{}
+	mk := func(name string) messaging.Port {
+		p := messaging.NewPort(comp, 4, 4, "TLB."+name)
+		p.SetConnection(wire)
+		comp.AssignPort(name, p)
+		return p
+	}
+	top := mk("Top")
+	bottom := mk("Bottom")
+	mk("Control")
+	type pg struct {
+		pid   vm.PID
+		vaddr uint64
+		frame uint64
+	}
+	pages := []pg{{1, 0x1000, 0}, {1, 0x2000, 0}, {2, 0x3000, 0}, {2, 0x1000, 0}}
+	for i := range pages {
+		pages[i].frame = verifrt.Uint64Range("frame", 1, 1<<20) << 12
+	}
+	nReq := verifrt.Bound("requests", 4, 5)
+	walks := 0
+	for i := 0; i < nReq; i++ {
+		want := pages[verifrt.Choice("page", len(pages))]
+		m := vmprotocol.TranslationReq{VAddr: want.vaddr, PID: want.pid, DeviceID: 1}
+		m.ID, m.Src, m.Dst = timing.GetIDGenerator().Generate(), "Core.Port", top.AsRemote()
+		top.Deliver(m)
+		answered := false
+		for k := 0; k < 30 && !answered; k++ {
+			comp.Tick()
+			for bottom.PeekOutgoing() != nil {
+				q := bottom.RetrieveOutgoing().(vmprotocol.TranslationReq)
+				walks++
+				found := false
+				for _, p := range pages {
+					if p.pid == q.PID && p.vaddr == q.VAddr {
+						found = true
+						rsp := vmprotocol.TranslationRsp{Page: vm.Page{PID: p.pid, VAddr: p.vaddr, PAddr: p.frame, PageSize: 4096, Valid: true, DeviceID: 1}}
+						rsp.ID, rsp.Src, rsp.Dst, rsp.RspTo = timing.GetIDGenerator().Generate(), "MMU.Top", q.Src, q.ID
+						bottom.Deliver(rsp)
+					}
+				}
+				verifrt.Assert(found, "walk-request-is-for-the-requested-page")
+			}
+			for top.PeekOutgoing() != nil {
+				rsp := top.RetrieveOutgoing().(vmprotocol.TranslationRsp)
+				verifrt.Assert(rsp.RspTo == m.ID && rsp.Dst == "Core.Port", "answer-is-for-the-request")
+				verifrt.Assert(rsp.Page.PID == want.pid && rsp.Page.VAddr == want.vaddr && rsp.Page.PAddr == want.frame && rsp.Page.Valid, "translation-is-the-page-tables-mapping-of-process-and-page")
+				verifrt.Assert(!answered, "answered-exactly-once")
+				answered = true
+			}
+		}
+		verifrt.Assert(answered, "every-translation-request-answered")
+	}
+	if walks > 2 {
+		verifrt.Cover("evicted")
+	}
+	verifrt.Cover("end")
+}
